@@ -223,7 +223,7 @@ def enumeration_handmade():
         for de, ds, ea, sa, ei, si in cases:
             for moore in (True, False):
                 for qinit in (r'\A \A', r'\E \E', r'\A \E', r'\E \A'):
-                    for variant in ('plain', 'debug-logging', 'role-keys-swapped', 'qinit-positional'):
+                    for variant in ('plain', 'debug-logging', 'role-keys-swapped', 'qinit-positional', 'attribute-differs'):
                         if variant != 'plain' and moore:
                             continue
                         n += 1
@@ -238,6 +238,11 @@ def enumeration_handmade():
                         if variant != 'role-keys-swapped':
                             aut.varlist['sys'] = list(ds)
                         aut.moore, aut.plus_one, aut.qinit = moore, True, qinit
+                        if variant == 'attribute-differs':
+                            # the automaton carries another form in its attribute (e.g. the default of
+                            # default_streett_automaton): the explicit argument decides
+                            forms_ = [r'\A \A', r'\E \E', r'\A \E', r'\E \A']
+                            aut.qinit = forms_[(forms_.index(qinit) + 1) % 4]
                         aut.prime_varlists()
                         aut.action[ek], aut.action[sk] = ea, sa
                         aut.init[ek], aut.init[sk] = ei, si
